@@ -1,12 +1,33 @@
+// C29 harness: hostile object keys, upload ids, copy sources and batch-delete keys
+// against every object / multipart / copy / tagging route of the REAL S3 gateway
+// router, sent as RAW request targets (nothing is cleaned on the client side), over
+// the in-process filer of package s3env.  Recorded per request: the filer-facing
+// calls (gRPC + HTTP, before the filer's ServeMux), every FilerStore call, the
+// status class, whether anything outside the bucket changed and whether foreign
+// content came back.  A second stream of cases runs path strings through Go's
+// path.Clean / filepath.Join / http.ServeMux / FullPath.DirAndName / filepath.Base /
+// filepath.Dir for the model's `clean` family.
 package main
 
 import (
 	"fmt"
-	"os"
+	"net/url"
+	"path"
+	"path/filepath"
+	"regexp"
 	"strings"
 
+	"github.com/chrislusf/seaweedfs/weed/util"
+
+	"verifharness/hx"
 	"verifharness/s3env"
 )
+
+// ---------- fixture (must equal fx0 of coq/check/C29.v) ----------
+
+const bucket = "b"
+
+var victimMarks = []string{"VICTIMDATA", "KEEPDATA", "VPARTDATA", "SECRETDATA"}
 
 func build(e *s3env.Env) {
 	e.Wipe("/")
@@ -16,64 +37,400 @@ func build(e *s3env.Env) {
 	e.Mkdir("/buckets/b/.uploads/u1")
 	e.PutFile("/buckets/b/.uploads/u1/0001.part", []byte("part1"))
 	e.Mkdir("/buckets/other")
-	e.PutFile("/buckets/other/obj", []byte("victim"))
-	e.PutFile("/buckets/other/keep", []byte("keep"))
-	e.PutFile("/buckets/other/.uploads/u2/0001.part", []byte("vpart"))
-	e.PutFile("/etc/secret", []byte("secret"))
+	e.PutFile("/buckets/other/obj", []byte("VICTIMDATA"))
+	e.PutFile("/buckets/other/keep", []byte("KEEPDATA"))
+	e.PutFile("/buckets/other/.uploads/u2/0001.part", []byte("VPARTDATA"))
+	e.PutFile("/etc/secret", []byte("SECRETDATA"))
 }
 
-// args: each request is "METHOD target|Header: v|Header2: v2|body=..."
-func main() {
-	e := s3env.New(s3env.Options{})
-	defer e.Close()
-	for _, a := range os.Args[1:] {
-		build(e)
-		before := e.SnapshotString("/")
-		e.Store.Take()
-		e.TakeCalls()
-		parts := strings.Split(a, "|")
-		mt := strings.SplitN(parts[0], " ", 2)
-		hdr := map[string]string{}
-		var body []byte
-		for _, p := range parts[1:] {
-			if strings.HasPrefix(p, "body=") {
-				body = []byte(p[5:])
+func outsideSnapshot(e *s3env.Env) string {
+	var sb strings.Builder
+	for _, l := range strings.Split(e.SnapshotString("/"), "\n") {
+		if strings.HasPrefix(l, "/buckets/b/") || strings.HasPrefix(l, "/buckets/b ") {
+			continue
+		}
+		sb.WriteString(l)
+		sb.WriteString("\n")
+	}
+	return sb.String()
+}
+
+// ---------- Coq printing ----------
+
+var segIdent = map[string]string{"": "s_", "buckets": "sbuckets", "b": "sb", "other": "sother", "obj": "sobj", "keep": "skeep",
+	"x": "sx", "y": "sy", "new": "snew", "..": "sdd", ".": "sd1", ".uploads": "sup", "u1": "su1", "u2": "su2", "etc": "setc",
+	"secret": "ssecret", "0001.part": "sp1", "0002.part": "sp2", "UUID": "suuid", "%2e%2e": "spdd", "k": "sk"}
+
+func coqSeg(s string) string {
+	if id, ok := segIdent[s]; ok {
+		return id
+	}
+	return hx.Str(s)
+}
+
+func coqStr(s string) string {
+	if !strings.Contains(s, "/") {
+		return coqSeg(s)
+	}
+	segs := strings.Split(s, "/")
+	xs := make([]string, len(segs))
+	for i, g := range segs {
+		xs[i] = coqSeg(g)
+	}
+	return "(J " + hx.List(xs) + ")"
+}
+
+var uuidRe = regexp.MustCompile(`[0-9a-f]{8}-[0-9a-f]{4}-[0-9a-f]{4}-[0-9a-f]{4}-[0-9a-f]{12}`)
+
+func deUUID(s string) string { return uuidRe.ReplaceAllString(s, "UUID") }
+
+func coqCall(c s3env.FilerCall) string {
+	d, n := deUUID(c.Dir), deUUID(c.Name)
+	switch c.Method {
+	case "HTTP GET":
+		return "Http MGet " + coqStr(d)
+	case "HTTP HEAD":
+		return "Http MHead " + coqStr(d)
+	case "HTTP PUT":
+		return "Http MPut " + coqStr(d)
+	case "HTTP DELETE":
+		return "Http MDelete " + coqStr(d)
+	case "LookupDirectoryEntry":
+		return "GLookup " + coqStr(d) + " " + coqStr(n)
+	case "ListEntries":
+		return "GList " + coqStr(d)
+	case "CreateEntry":
+		return "GCreate " + coqStr(d) + " " + coqStr(n) + " " + hx.Bool(c.IsDir)
+	case "UpdateEntry":
+		return "GUpdate " + coqStr(d) + " " + coqStr(n)
+	case "DeleteEntry":
+		return "GDelete " + coqStr(d) + " " + coqStr(n) + " " + hx.Bool(c.Recursive)
+	}
+	panic("unexpected filer call " + c.Method)
+}
+
+var sopName = map[string]string{"Find": "SFind", "List": "SList", "Insert": "SInsert", "Update": "SUpdate", "Delete": "SDelete", "DeleteChildren": "SDelChildren"}
+
+// ---------- request generation ----------
+
+type reqSpec struct {
+	route   string // Coq constructor
+	rawKey  string // raw (escaped) request path behind /b/
+	object  string // decoded: what the router hands to the handler (mux var "object")
+	upload  string
+	part    int
+	src     string
+	replace bool
+	keys    []string
+	kind    string
+}
+
+var keySegs = []string{"x", "y", "obj", "new", "..", "..", ".", "", ".uploads", "u1", "other", "etc", "secret", "b", "buckets", "0001.part", "%2e%2e"}
+
+func genKey(r *hx.Rng) string {
+	switch r.Intn(10) {
+	case 0:
+		return r.PickStr([]string{"obj", "new", "x/y", "x/new", "new/k"})
+	case 1:
+		return r.PickStr([]string{"x/../../other/obj", "../other/obj", "../../etc/secret", "x/../../other/nd/", "../other", "..", "x/..", ".", "../..", "../../.."})
+	case 2:
+		return r.PickStr([]string{".uploads/u1/0001.part", ".uploads/u1", ".uploads/new", "x/../.uploads/u1/0001.part", ".uploads/"})
+	}
+	n := r.Range(1, 6)
+	segs := make([]string, n)
+	for i := range segs {
+		segs[i] = r.PickStr(keySegs)
+	}
+	k := strings.Join(segs, "/")
+	if r.Chance(1, 6) {
+		k += "/"
+	}
+	if r.Chance(1, 8) {
+		k = "/" + k
+	}
+	if k == "" {
+		k = "x"
+	}
+	return k
+}
+
+// rawOf writes a decoded key as a request path: either literally or with ".." as
+// %2e%2e and some "/" as %2f (Go's server decodes both back); a literal "%" is %25.
+func rawOf(r *hx.Rng, key string) string {
+	mode := r.Intn(4)
+	var sb strings.Builder
+	segs := strings.Split(key, "/")
+	for i, s := range segs {
+		if i > 0 {
+			if mode == 2 && r.Bool() {
+				sb.WriteString("%2f")
 			} else {
-				kv := strings.SplitN(p, ": ", 2)
-				hdr[kv[0]] = kv[1]
+				sb.WriteString("/")
 			}
 		}
-		r := e.Do(mt[0], mt[1], hdr, body)
-		b := string(r.Body)
-		if len(b) > 300 {
-			b = b[:300]
+		s = strings.ReplaceAll(s, "%", "%25")
+		if s == ".." && (mode == 1 || mode == 2) {
+			s = "%2e%2e"
 		}
-		fmt.Printf("== %s -> %d %q\n", a, r.Status, b)
-		for _, c := range e.TakeCalls() {
-			fmt.Printf("   CALL %s dir=%q name=%q rec=%v isdir=%v\n", c.Method, c.Dir, c.Name, c.Recursive, c.IsDir)
+		sb.WriteString(s)
+	}
+	return sb.String()
+}
+
+var uploadIds = []string{"u1", "u1", "nope", "../u1", "../../other/.uploads/u2", "../..", "../../..", "u1/", "./u1", "u1/../u1", "../../other", "../x", "u1/../../obj", "%2e%2e/%2e%2e/other/.uploads/u2"}
+var copySources = []string{"b/obj", "/b/obj", "other/obj", "b/x/y", "b/../other/obj", "/b/x/../../etc/secret", "../etc/secret", "b/%2e%2e/other/obj",
+	"b/%252e%252e/other/obj", "b/.uploads/u1/0001.part", "other/.uploads/u2/0001.part", "b/", "nobucket/x", "b/nope", "b/x/", "./b/obj", "b//obj"}
+
+var routes = []string{"RPut", "RGet", "RHead", "RDelete", "RBatchDelete", "RCopy", "RCopyPart", "RNewUpload", "RPutPart", "RComplete", "RAbort", "RListParts", "RGetTag", "RPutTag", "RDelTag"}
+
+const tagBody = `<Tagging xmlns="http://s3.amazonaws.com/doc/2006-03-01/"><TagSet><Tag><Key>k</Key><Value>v</Value></Tag></TagSet></Tagging>`
+
+func xmlEscape(s string) string {
+	s = strings.ReplaceAll(s, "&", "&amp;")
+	s = strings.ReplaceAll(s, "<", "&lt;")
+	return strings.ReplaceAll(s, ">", "&gt;")
+}
+
+// send builds and sends the request of a spec; returns the response.
+func send(e *s3env.Env, s *reqSpec) *s3env.Resp {
+	t := "/" + bucket + "/" + s.rawKey
+	up := "uploadId=" + url.QueryEscape(s.upload)
+	switch s.route {
+	case "RPut":
+		return e.Do("PUT", t, nil, []byte("new"))
+	case "RGet":
+		return e.Do("GET", t, nil, nil)
+	case "RHead":
+		return e.Do("HEAD", t, nil, nil)
+	case "RDelete":
+		return e.Do("DELETE", t, nil, nil)
+	case "RBatchDelete":
+		var sb strings.Builder
+		sb.WriteString("<Delete>")
+		for _, k := range s.keys {
+			sb.WriteString("<Object><Key>" + xmlEscape(k) + "</Key></Object>")
 		}
-		for _, c := range e.Store.Take() {
-			fmt.Printf("      store %s %s\n", c.Op, c.Path)
+		sb.WriteString("</Delete>")
+		return e.Do("POST", "/"+bucket+"?delete", nil, []byte(sb.String()))
+	case "RCopy":
+		h := map[string]string{"X-Amz-Copy-Source": s.src}
+		if s.replace {
+			h["X-Amz-Metadata-Directive"] = "REPLACE"
 		}
-		after := e.SnapshotString("/")
-		if after != before {
-			fmt.Printf("   STATE CHANGED:\n")
-			bl := map[string]bool{}
-			for _, l := range strings.Split(before, "\n") {
-				bl[l] = true
-			}
-			al := map[string]bool{}
-			for _, l := range strings.Split(after, "\n") {
-				al[l] = true
-				if !bl[l] {
-					fmt.Printf("     + %s\n", l)
-				}
-			}
-			for _, l := range strings.Split(before, "\n") {
-				if !al[l] {
-					fmt.Printf("     - %s\n", l)
-				}
-			}
+		return e.Do("PUT", t, h, nil)
+	case "RCopyPart":
+		return e.Do("PUT", fmt.Sprintf("%s?partNumber=%d&%s", t, s.part, up), map[string]string{"X-Amz-Copy-Source": s.src}, nil)
+	case "RNewUpload":
+		return e.Do("POST", t+"?uploads", nil, nil)
+	case "RPutPart":
+		return e.Do("PUT", fmt.Sprintf("%s?partNumber=%d&%s", t, s.part, up), nil, []byte("pp"))
+	case "RComplete":
+		return e.Do("POST", t+"?"+up, nil, []byte("<CompleteMultipartUpload></CompleteMultipartUpload>"))
+	case "RAbort":
+		return e.Do("DELETE", t+"?"+up, nil, nil)
+	case "RListParts":
+		return e.Do("GET", t+"?"+up, nil, nil)
+	case "RGetTag":
+		return e.Do("GET", t+"?tagging", nil, nil)
+	case "RPutTag":
+		return e.Do("PUT", t+"?tagging", nil, []byte(tagBody))
+	case "RDelTag":
+		return e.Do("DELETE", t+"?tagging", nil, nil)
+	}
+	panic("route " + s.route)
+}
+
+// decodedObject is what the gateway's router extracts as {object}: the decoded
+// request path (net/url, as Go's HTTP server does it) behind "/<bucket>/".
+func decodedObject(rawKey string) string {
+	u, err := url.ParseRequestURI("/" + bucket + "/" + rawKey)
+	hx.Must(err)
+	return strings.TrimPrefix(u.Path, "/"+bucket+"/")
+}
+
+func genReq(r *hx.Rng) *reqSpec {
+	s := &reqSpec{route: r.PickStr(routes), part: r.Range(1, 2), kind: "req"}
+	key := genKey(r)
+	switch s.route {
+	case "RBatchDelete":
+		n := r.Range(1, 3)
+		for i := 0; i < n; i++ {
+			s.keys = append(s.keys, genKey(r))
+		}
+		key = "k"
+	case "RCopy":
+		s.src = r.PickStr(copySources)
+		s.replace = r.Chance(1, 4)
+		if s.replace && r.Bool() {
+			key, s.src = "obj", r.PickStr([]string{"b/obj", "/b/obj"})
+		}
+	case "RCopyPart":
+		s.src = r.PickStr(copySources)
+		s.upload = r.PickStr(uploadIds)
+		key = "k"
+	case "RPutPart", "RAbort", "RListParts":
+		s.upload = r.PickStr(uploadIds)
+		if r.Chance(2, 3) {
+			key = "k"
+		}
+	case "RComplete":
+		s.upload = r.PickStr(uploadIds)
+	}
+	s.rawKey = rawOf(r, key)
+	s.object = decodedObject(s.rawKey)
+	return s
+}
+
+func witness(route, key, upload, src string, keys []string, kind string) *reqSpec {
+	s := &reqSpec{route: route, rawKey: key, upload: upload, src: src, keys: keys, part: 1, kind: kind}
+	s.object = decodedObject(key)
+	return s
+}
+
+func coqReq(s *reqSpec) string {
+	route := s.route
+	if route == "RCopy" {
+		route = "(RCopy " + hx.Bool(s.replace) + ")"
+	}
+	ks := make([]string, len(s.keys))
+	for i, k := range s.keys {
+		ks[i] = coqStr(k)
+	}
+	return fmt.Sprintf("(mk_req %s sb %s %s %s %s %s)", route, coqStr(s.object), coqStr(s.upload),
+		coqSeg(fmt.Sprintf("%04d.part", s.part)), coqStr(s.src), hx.List(ks))
+}
+
+func statusClass(st int) uint64 {
+	if st == 599 {
+		return 9
+	}
+	return uint64(st / 100)
+}
+
+func runReq(e *s3env.Env, out *hx.Out, s *reqSpec) {
+	build(e)
+	before := outsideSnapshot(e)
+	e.Store.Take()
+	e.TakeCalls()
+	resp := send(e, s)
+	calls := e.TakeCalls()
+	store := e.Store.Take()
+	changed := outsideSnapshot(e) != before
+	leak := false
+	for _, m := range victimMarks {
+		if strings.Contains(string(resp.Body), m) {
+			leak = true
 		}
 	}
+	cs := make([]string, len(calls))
+	for i, c := range calls {
+		cs[i] = coqCall(c)
+	}
+	ss := make([]string, len(store))
+	for i, c := range store {
+		ss[i] = hx.Pair(sopName[c.Op], coqStr(deUUID(c.Path)))
+	}
+	term := fmt.Sprintf("CReq %s %s %s %s %s %s", coqReq(s), hx.List(cs), hx.List(ss), hx.N(statusClass(resp.Status)), hx.Bool(changed), hx.Bool(leak))
+	canon := fmt.Sprintf("%s|%s|%s|%s|%v|%v", s.route, s.object, s.upload, s.src, s.replace, s.keys)
+	out.Add(term, canon, resp.Status/100 == 2, s.kind)
+	out.Count("route:"+s.route, 1)
+	out.Count(fmt.Sprintf("status:%dxx", resp.Status/100), 1)
+	if changed {
+		out.Count("outside-changed", 1)
+	}
+	if leak {
+		out.Count("leak", 1)
+	}
+}
+
+// ---------- clean cases ----------
+
+var cleanSegs = []string{"a", "b", "..", "..", ".", "", ".uploads", "buckets"}
+
+func genPath(r *hx.Rng) string {
+	n := r.Range(0, 6)
+	segs := make([]string, n)
+	for i := range segs {
+		segs[i] = r.PickStr(cleanSegs)
+	}
+	p := strings.Join(segs, "/")
+	if r.Chance(3, 4) {
+		p = "/" + p
+	}
+	if r.Chance(1, 5) {
+		p += "/"
+	}
+	return p
+}
+
+func muxServes(e *s3env.Env, p string) string {
+	// the real ServeMux: a 301 names the canonical path, anything else means p is served as it is
+	t := (&url.URL{Path: p}).EscapedPath()
+	if t == "" {
+		t = "/"
+	}
+	if !strings.HasPrefix(t, "/") {
+		t = "/" + t
+	}
+	r := e.DoFiler("GET", t, nil)
+	if r.Status == 301 {
+		loc, err := url.Parse(r.Header.Get("Location"))
+		hx.Must(err)
+		return loc.Path
+	}
+	if !strings.HasPrefix(p, "/") {
+		return "/" + p
+	}
+	return p
+}
+
+func runClean(e *s3env.Env, out *hx.Out, r *hx.Rng) {
+	p := genPath(r)
+	dir := genPath(r)
+	name := strings.Trim(genPath(r), "/")
+	if !strings.HasPrefix(dir, "/") {
+		dir = "/" + dir
+	}
+	d, n := util.FullPath(p).DirAndName()
+	mux := p
+	if p == "" {
+		mux = "/"
+	} else {
+		mux = muxServes(e, p)
+	}
+	term := fmt.Sprintf("CClean %s %s %s %s %s %s %s %s %s", coqStr(p), coqStr(dir), coqStr(name),
+		coqStr(path.Clean(p)), coqStr(mux), coqStr(string(util.JoinPath(dir, name))),
+		hx.Pair(coqStr(d), coqStr(n)), coqStr(filepath.Base(p)), coqStr(filepath.Dir(p)))
+	out.Add(term, "clean|"+p+"|"+dir+"|"+name, path.Clean(p) != p, "clean")
+}
+
+func main() {
+	out := hx.Flags("C29", 400)
+	out.Rule = "3 of 4 cases: one S3 request on bucket b of a fixed fixture (b with obj, x/y, .uploads/u1/0001.part; bucket other with obj, keep, .uploads/u2/0001.part; /etc/secret), route uniform over 15 routes (put/get/head/delete object, batch delete, copy with/without REPLACE, copy part, new/put-part/complete/abort/list-parts, get/put/delete tagging), key = 1-6 segments over {x,y,obj,new,..,.,empty,.uploads,u1,other,etc,secret,b,buckets,0001.part,%2e%2e} with optional leading/trailing slash or a fixed hostile/benign key, written literally or with %2e%2e / %2f escapes; upload ids and copy sources from fixed hostile lists; the fixture is rebuilt before every request; 1 of 4 cases: a random path over {a,b,..,.,empty,.uploads,buckets} through Go's path.Clean, the real ServeMux, util.JoinPath, FullPath.DirAndName, filepath.Base/Dir; the first 8 cases are fixed witnesses; non-trivial = 2xx answer (request) / cleaning changed the path (clean); distinct = canonical decoded request"
+	e := s3env.New(s3env.Options{})
+	defer e.Close()
+	root := hx.NewRng(out.Seed)
+
+	witnesses := []*reqSpec{
+		witness("RGet", "x/../../other/obj", "", "", nil, "witness-k0-get"),
+		witness("RBatchDelete", "k", "", "", []string{"x/../../other/obj"}, "witness-k0-batch"),
+		witness("RAbort", "k", "../../other", "", nil, "witness-k0-abort"),
+		witness("RGetTag", "x/../../other/obj", "", "", nil, "witness-k0-tag"),
+		witness("RCopy", "new", "", "b/../other/obj", nil, "witness-k0-copy"),
+		witness("RPut", "x/../../other/nd/", "", "", nil, "witness-k0-mkdir"),
+		witness("RGet", ".uploads/u1/0001.part", "", "", nil, "witness-k1-get"),
+		witness("RDelete", ".uploads/u1", "", "", nil, "witness-k1-delete"),
+	}
+	for i := 0; i < out.N; i++ {
+		r := root.Fork()
+		switch {
+		case i < len(witnesses):
+			runReq(e, out, witnesses[i])
+		case i%4 == 3:
+			runClean(e, out, r)
+		default:
+			runReq(e, out, genReq(r))
+		}
+	}
+	out.Write()
 }
